@@ -193,6 +193,7 @@ pub fn sign_internal<
     ml_dsa::sign_internal::<CTEST, K, L, LAMBDA_DIV4, SIG_LEN, SK_LEN, W1_LEN>(
         beta, gamma1, gamma2, omega, tau, esk, message, ctx, oid, phm, rnd, nist,
     )
+    .expect("rejection loop exhausted the counter")
 }
 pub fn verify_internal<
     const CTEST: bool,
